@@ -131,9 +131,13 @@ theorem rerun_eq (c : Cfg) (s sr : St) (p v p0 : Q) (dt : Q) (n : Nat) (stop) (r
 theorem compute_pwm_nocontrol (c : Cfg) (hc : c.control = none) (s s' : St) (t : Q)
     (h : compute c s t = .ok s') : s'.pwm = s.pwm ∧ ∀ r, s'.recs = s.recs ++ [r] → r.pwm = s.pwm := by
   unfold compute at h; simp only [hc] at h
-  simp only [Except.ok.injEq] at h; subst h
-  refine ⟨rfl, ?_⟩
-  intro r hr; simp at hr; rw [← hr]
+  split at h
+  · simp at h
+  · split at h
+    · simp at h
+    · simp only [Except.ok.injEq] at h; subst h
+      refine ⟨rfl, ?_⟩
+      intro r hr; simp at hr; rw [← hr]
 
 /-! ### K3: the proviso is necessary -/
 
